@@ -48,7 +48,7 @@ def classify_erg(rc, out, err):
     return f"exit:{rc}"
 
 
-def run_programs(progs, erg, python=None, opt=None, jobs=12, mode="run", extra_args=(), keep=False):
+def run_programs(progs, erg, python=None, opt=None, jobs=12, mode="compile+run", extra_args=(), keep=False):
     """progs: list of (id, erg_source, python_source or None). Returns list of dicts."""
     python = python or core.PYTHONS["3.11"]
     env = core.erg_env()
@@ -62,9 +62,26 @@ def run_programs(progs, erg, python=None, opt=None, jobs=12, mode="run", extra_a
         cmd = [erg, "--py-command", python]
         if opt is not None:
             cmd += ["-o", str(opt)]
-        cmd += list(extra_args) + [mode, "m.er"]
-        rc, out, err = run_cmd(cmd, d, env)
-        res = {"id": pid, "erg_rc": rc, "erg_out": out, "erg_err": err[-1500:], "erg_class": classify_erg(rc, out, err)}
+        if mode == "compile+run":
+            # compile to m.pyc, then run the produced bytecode directly under the target interpreter: stdout is then the
+            # program's own output (the compiler prints warnings on stdout in `run` mode)
+            rc, out, err = run_cmd(cmd + list(extra_args) + ["compile", "m.er"], d, env)
+            ccls = classify_erg(rc, out, err)
+            if ccls == "ok" and os.path.exists(os.path.join(d, "m.pyc")):
+                rc, out, err = run_cmd([python, "m.pyc"], d, env)
+                cls = "ok" if rc == 0 else ("runtime-exc:" + exc_class(err) if exc_class(err) else f"exit:{rc}")
+                if rc == 124:
+                    cls = "timeout"
+            else:
+                cls = "rejected" if ccls == "ok" else ccls
+                if ccls == "ok":
+                    cls = "no-pyc"
+                out = ""
+            res = {"id": pid, "erg_rc": rc, "erg_out": out, "erg_err": err[-1500:], "erg_class": cls}
+        else:
+            cmd += list(extra_args) + [mode, "m.er"]
+            rc, out, err = run_cmd(cmd, d, env)
+            res = {"id": pid, "erg_rc": rc, "erg_out": out, "erg_err": err[-1500:], "erg_class": classify_erg(rc, out, err)}
         if psrc is not None:
             open(os.path.join(d, "oracle.py"), "w").write(psrc)
             prc, pout, perr = run_cmd([python, "oracle.py"], d, env)
